@@ -37,6 +37,7 @@ SRC_STATES = {
     "file_044": [dict(t="f", p="s", c=b"hello\n", m=0o044)],
     "binary": [dict(t="f", p="s", c=b"\xff\xfe\x00bin", m=0o644)],
     "empty": [dict(t="f", p="s", c=b"", m=0o644)],
+    "big": [dict(t="f", p="s", c=("z" * 8190 + "\u00e9\u00e9\n").encode(), m=0o644)],
     "dir": [dict(t="d", p="s", m=0o755)],
 }
 TEMPLATE_SRC = {
@@ -47,11 +48,13 @@ TEMPLATE_SRC = {
     "expr_suid": ([dict(t="f", p="s", c=b"T {{ v }} end\n", m=0o4755)], "T val end\n"),
     "undefined": ([dict(t="f", p="s", c=b"{{ nope }}", m=0o644)], None),
     "empty": ([dict(t="f", p="s", c=b"", m=0o644)], ""),
+    "big": ([dict(t="f", p="s", c=("w" * 8191 + "\u00e9\u00e9 {{ v }}\n").encode(), m=0o644)], "w" * 8191 + "\u00e9\u00e9 val\n"),
     "binary": ([dict(t="f", p="s", c=b"\xff\xfe", m=0o644)], None),
     "m044": ([dict(t="f", p="s", c=b"hello\n", m=0o044)], "hello\n"),
     "dir": ([dict(t="d", p="s", m=0o755)], None),
 }
 CONTENTS = ["hello\n", "", "no newline", "café ✓\n", "nul\x00inside\n"]
+BIG_CONTENTS = ["x" * 8191 + "\u00e9\u00e9\u00e9\n", "y" * 65535 + "\u2713 end"]
 MODES = [None, "0644", "644", "0600", "0444", "4755", "2750", "1777", "7777", "0000", "000",
          "preserve", "abc", "99", "07777", "é75", "+644", "8644"]
 FILE_MODES = [m for m in MODES if m != "preserve"]
@@ -68,6 +71,9 @@ def all_tasks(tier):
         for c in CONTENTS:
             for m in modes:
                 yield dnodes, dict(kind="copy", content=c, dest=dest, mode=m)
+        # contents longer than one read buffer (8 KiB, 64 KiB) with a multi-byte character across the boundary
+        for c in BIG_CONTENTS:
+            yield dnodes, dict(kind="copy", content=c, dest=dest, mode=None)
         for sn, snodes in SRC_STATES.items():
             for m in modes:
                 yield dnodes + snodes, dict(kind="copy", src="s", dest=dest, mode=m)
